@@ -276,3 +276,1003 @@ Lemma run_flush_u_text_state : forall m s,
   m <= length (phase_rest (u_wbuf (u s)) (ubuf s) (u_position (u s))) ->
   u_state (u (fst (run_flush_u m s))) = u_state (u s).
 Proof. intros m s H. rewrite run_flush_u_text by exact H. reflexivity. Qed.
+
+(* ================================================================== *)
+(* 2. a whole unit, by pure iteration                                   *)
+(* ================================================================== *)
+
+Lemma fst_run_flush_c_app : forall a b s,
+  fst (run_flush_c (a + b) s) = fst (run_flush_c b (fst (run_flush_c a s))).
+Proof.
+  intros. rewrite run_flush_c_app. destruct (run_flush_c a s) as [s1 o1]. cbn [fst].
+  destruct (run_flush_c b s1). reflexivity.
+Qed.
+
+Lemma phase_c_before : forall s txt, k_position (k s) = 0 -> k_wstate (k s) = WS_BEFORE ->
+  In 0%N (wb_text (k_wbuf (k s)) (cbuf s)) -> text_of (wb_text (k_wbuf (k s)) (cbuf s)) = txt ->
+  run_flush_c (S (length txt)) s =
+  (s |> setk_position (length txt) |> setk_position 0 |> setk_wbuf WB_MAIN |> setk_wstate WS_MAIN, txt).
+Proof.
+  intros s txt Hp Hw H0 Ht. subst txt. rewrite run_flush_c_phase by assumption.
+  unfold phase_switch_c. scbn. rewrite Hw. reflexivity.
+Qed.
+
+Lemma phase_c_main : forall s txt, k_position (k s) = 0 -> k_wstate (k s) = WS_MAIN ->
+  In 0%N (wb_text (k_wbuf (k s)) (cbuf s)) -> text_of (wb_text (k_wbuf (k s)) (cbuf s)) = txt ->
+  run_flush_c (S (length txt)) s =
+  (s |> setk_position (length txt) |> setk_position 0
+     |> setk_wbuf (WB_NL (k_cr (k s))) |> setk_wstate WS_AFTER, txt).
+Proof.
+  intros s txt Hp Hw H0 Ht. subst txt. rewrite run_flush_c_phase by assumption.
+  unfold phase_switch_c. scbn. rewrite Hw. reflexivity.
+Qed.
+
+Lemma phase_c_after : forall s txt, k_position (k s) = 0 -> k_wstate (k s) = WS_AFTER ->
+  In 0%N (wb_text (k_wbuf (k s)) (cbuf s)) -> text_of (wb_text (k_wbuf (k s)) (cbuf s)) = txt ->
+  run_flush_c (S (length txt)) s =
+  (let s1 := s |> setk_position (length txt) |> setk_state (k_wafter (k s)) in
+   if cstate_beq (k_wafter (k s)) CS_AFTER_RESET then set_gR (S (gR s)) s1 else s1, txt).
+Proof.
+  intros s txt Hp Hw H0 Ht. subst txt. rewrite run_flush_c_phase by assumption.
+  unfold phase_switch_c. scbn. rewrite Hw. reflexivity.
+Qed.
+
+Lemma len_phase_rest0 : forall s txt, k_position (k s) = 0 ->
+  text_of (wb_text (k_wbuf (k s)) (cbuf s)) = txt ->
+  length (phase_rest (k_wbuf (k s)) (cbuf s) (k_position (k s))) = length txt.
+Proof. intros s txt Hp Ht. unfold phase_rest. rewrite Hp. cbn [skipn]. rewrite Ht. reflexivity. Qed.
+
+Theorem C11_unit_cmd_proof : forall s after, In 0%N (cbuf s) ->
+  let s0 := setk_state CS_FLUSH (start_flush_c after s) in
+  let nl := nl_text (k_cr (k s)) in
+  let n := 3 + 2 * length nl + length (text_of (cbuf s)) in
+  snd (run_flush_c n s0) = nl ++ text_of (cbuf s) ++ nl /\
+  k_state (k (fst (run_flush_c n s0))) = after /\
+  cbuf (fst (run_flush_c n s0)) = cbuf s /\ ubuf (fst (run_flush_c n s0)) = ubuf s /\
+  u (fst (run_flush_c n s0)) = u s /\ k_cr (k (fst (run_flush_c n s0))) = k_cr (k s) /\
+  (forall m, m < n -> k_state (k (fst (run_flush_c m s0))) = CS_FLUSH).
+Proof.
+  intros s after H0. cbv zeta. unfold start_flush_c.
+  set (nl := nl_text (k_cr (k s))). set (L1 := length nl). set (T := text_of (cbuf s)). set (L2 := length T).
+  match goal with |- context [run_flush_c _ ?x] => set (s0 := x) end.
+  assert (T0 : text_of (wb_text (k_wbuf (k s0)) (cbuf s0)) = nl) by apply text_of_nl.
+  pose proof (phase_c_before s0 nl eq_refl eq_refl (In0_nl _) T0) as P1. fold L1 in P1.
+  match type of P1 with _ = (?x, _) => set (s1 := x) in * end.
+  assert (T1 : text_of (wb_text (k_wbuf (k s1)) (cbuf s1)) = T) by reflexivity.
+  pose proof (phase_c_main s1 T eq_refl eq_refl H0 T1) as P2. fold L2 in P2.
+  match type of P2 with _ = (?x, _) => set (s2 := x) in * end.
+  assert (T2 : text_of (wb_text (k_wbuf (k s2)) (cbuf s2)) = nl) by apply text_of_nl.
+  pose proof (phase_c_after s2 nl eq_refl eq_refl (In0_nl _) T2) as P3. fold L1 in P3.
+  match type of P3 with _ = (?x, _) => set (s3 := x) in * end.
+  assert (En : 3 + 2 * L1 + L2 = S L1 + (S L2 + S L1)) by lia. rewrite En. clear En.
+  assert (R : run_flush_c (S L1 + (S L2 + S L1)) s0 = (s3, nl ++ T ++ nl)).
+  { rewrite run_flush_c_app, P1, run_flush_c_app, P2, P3. reflexivity. }
+  rewrite R. cbn [fst snd].
+  assert (F : k_state (k s3) = after /\ cbuf s3 = cbuf s /\ ubuf s3 = ubuf s /\ u s3 = u s /\
+               k_cr (k s3) = k_cr (k s)).
+  { unfold s3. cbv zeta. destruct (cstate_beq (k_wafter (k s2)) CS_AFTER_RESET); repeat split; reflexivity. }
+  destruct F as (F1 & F2 & F3 & F4 & F5).
+  repeat split; try assumption.
+  intros m Hm.
+  destruct (le_lt_dec m L1) as [A|A].
+  - rewrite run_flush_c_text_state by (rewrite (len_phase_rest0 s0 nl eq_refl T0); exact A). reflexivity.
+  - destruct (le_lt_dec m (S L1 + L2)) as [B|B].
+    + replace m with (S L1 + (m - S L1)) by lia. rewrite fst_run_flush_c_app, P1. cbn [fst].
+      rewrite run_flush_c_text_state by (rewrite (len_phase_rest0 s1 T eq_refl T1); fold L2; lia). reflexivity.
+    + replace m with (S L1 + (S L2 + (m - S L1 - S L2))) by lia.
+      rewrite fst_run_flush_c_app, P1. cbn [fst]. rewrite fst_run_flush_c_app, P2. cbn [fst].
+      rewrite run_flush_c_text_state by (rewrite (len_phase_rest0 s2 nl eq_refl T2); fold L1; lia). reflexivity.
+Qed.
+
+Lemma fst_run_flush_u_app : forall a b s,
+  fst (run_flush_u (a + b) s) = fst (run_flush_u b (fst (run_flush_u a s))).
+Proof.
+  intros. rewrite run_flush_u_app. destruct (run_flush_u a s) as [s1 o1]. cbn [fst].
+  destruct (run_flush_u b s1). reflexivity.
+Qed.
+
+Lemma phase_u_before : forall s txt, u_position (u s) = 0 -> u_wstate (u s) = WS_BEFORE ->
+  In 0%N (wb_text (u_wbuf (u s)) (ubuf s)) -> text_of (wb_text (u_wbuf (u s)) (ubuf s)) = txt ->
+  run_flush_u (S (length txt)) s =
+  (s |> setu_position (length txt) |> setu_position 0 |> setu_wbuf WB_MAIN |> setu_wstate WS_MAIN, txt).
+Proof.
+  intros s txt Hp Hw H0 Ht. subst txt. rewrite run_flush_u_phase by assumption.
+  unfold phase_switch_u. scbn. rewrite Hw. reflexivity.
+Qed.
+
+Lemma phase_u_main : forall s txt, u_position (u s) = 0 -> u_wstate (u s) = WS_MAIN ->
+  In 0%N (wb_text (u_wbuf (u s)) (ubuf s)) -> text_of (wb_text (u_wbuf (u s)) (ubuf s)) = txt ->
+  run_flush_u (S (length txt)) s =
+  (s |> setu_position (length txt) |> setu_position 0
+     |> setu_wbuf (WB_NL (k_cr (k s))) |> setu_wstate WS_AFTER, txt).
+Proof.
+  intros s txt Hp Hw H0 Ht. subst txt. rewrite run_flush_u_phase by assumption.
+  unfold phase_switch_u. scbn. rewrite Hw. reflexivity.
+Qed.
+
+Lemma phase_u_after : forall s txt, u_position (u s) = 0 -> u_wstate (u s) = WS_AFTER ->
+  In 0%N (wb_text (u_wbuf (u s)) (ubuf s)) -> text_of (wb_text (u_wbuf (u s)) (ubuf s)) = txt ->
+  run_flush_u (S (length txt)) s =
+  (s |> setu_position (length txt) |> setu_state (u_wafter (u s)), txt).
+Proof.
+  intros s txt Hp Hw H0 Ht. subst txt. rewrite run_flush_u_phase by assumption.
+  unfold phase_switch_u. scbn. rewrite Hw. reflexivity.
+Qed.
+
+Lemma len_phase_rest0_u : forall s txt, u_position (u s) = 0 ->
+  text_of (wb_text (u_wbuf (u s)) (ubuf s)) = txt ->
+  length (phase_rest (u_wbuf (u s)) (ubuf s) (u_position (u s))) = length txt.
+Proof. intros s txt Hp Ht. unfold phase_rest. rewrite Hp. cbn [skipn]. rewrite Ht. reflexivity. Qed.
+
+
+(* a raw line of the command list: the text of the buffer only *)
+Theorem C11_unit_raw_proof : forall s after, In 0%N (cbuf s) ->
+  let s0 := setk_state CS_FLUSH (start_flush_raw_c after s) in
+  let n := 1 + length (text_of (cbuf s)) in
+  snd (run_flush_c n s0) = text_of (cbuf s) /\
+  k_state (k (fst (run_flush_c n s0))) = after /\
+  cbuf (fst (run_flush_c n s0)) = cbuf s /\ ubuf (fst (run_flush_c n s0)) = ubuf s /\
+  u (fst (run_flush_c n s0)) = u s /\ k_cr (k (fst (run_flush_c n s0))) = k_cr (k s) /\
+  (forall m, m < n -> k_state (k (fst (run_flush_c m s0))) = CS_FLUSH).
+Proof.
+  intros s after H0. cbv zeta. unfold start_flush_raw_c.
+  set (T := text_of (cbuf s)). set (L2 := length T).
+  match goal with |- context [run_flush_c _ ?x] => set (s0 := x) end.
+  assert (T0 : text_of (wb_text (k_wbuf (k s0)) (cbuf s0)) = T) by reflexivity.
+  pose proof (phase_c_after s0 T eq_refl eq_refl H0 T0) as P3. fold L2 in P3.
+  match type of P3 with _ = (?x, _) => set (s3 := x) in * end.
+  change (1 + L2) with (S L2). rewrite P3. cbn [fst snd].
+  assert (F : k_state (k s3) = after /\ cbuf s3 = cbuf s /\ ubuf s3 = ubuf s /\ u s3 = u s /\
+               k_cr (k s3) = k_cr (k s)).
+  { unfold s3. cbv zeta. destruct (cstate_beq (k_wafter (k s0)) CS_AFTER_RESET); repeat split; reflexivity. }
+  destruct F as (F1 & F2 & F3 & F4 & F5).
+  repeat split; try assumption.
+  intros m Hm.
+  rewrite run_flush_c_text_state by (rewrite (len_phase_rest0 s0 T eq_refl T0); fold L2; lia). reflexivity.
+Qed.
+
+(* an event line; in the iteration of the event machine alone the command machine's record,
+   hence k_cr, is constant: both newlines are the same *)
+Theorem C11_unit_uns_proof : forall s after, In 0%N (ubuf s) ->
+  let s0 := setu_state US_FLUSH (start_flush_u after s) in
+  let nl := nl_text (k_cr (k s)) in
+  let n := 3 + 2 * length nl + length (text_of (ubuf s)) in
+  snd (run_flush_u n s0) = nl ++ text_of (ubuf s) ++ nl /\
+  u_state (u (fst (run_flush_u n s0))) = after /\
+  ubuf (fst (run_flush_u n s0)) = ubuf s /\ cbuf (fst (run_flush_u n s0)) = cbuf s /\
+  k (fst (run_flush_u n s0)) = k s /\
+  (forall m, m < n -> u_state (u (fst (run_flush_u m s0))) = US_FLUSH).
+Proof.
+  intros s after H0. cbv zeta. unfold start_flush_u.
+  set (nl := nl_text (k_cr (k s))). set (L1 := length nl). set (T := text_of (ubuf s)). set (L2 := length T).
+  match goal with |- context [run_flush_u _ ?x] => set (s0 := x) end.
+  assert (T0 : text_of (wb_text (u_wbuf (u s0)) (ubuf s0)) = nl) by apply text_of_nl.
+  pose proof (phase_u_before s0 nl eq_refl eq_refl (In0_nl _) T0) as P1. fold L1 in P1.
+  match type of P1 with _ = (?x, _) => set (s1 := x) in * end.
+  assert (T1 : text_of (wb_text (u_wbuf (u s1)) (ubuf s1)) = T) by reflexivity.
+  pose proof (phase_u_main s1 T eq_refl eq_refl H0 T1) as P2. fold L2 in P2.
+  match type of P2 with _ = (?x, _) => set (s2 := x) in * end.
+  assert (T2 : text_of (wb_text (u_wbuf (u s2)) (ubuf s2)) = nl) by apply text_of_nl.
+  pose proof (phase_u_after s2 nl eq_refl eq_refl (In0_nl _) T2) as P3. fold L1 in P3.
+  match type of P3 with _ = (?x, _) => set (s3 := x) in * end.
+  assert (En : 3 + 2 * L1 + L2 = S L1 + (S L2 + S L1)) by lia. rewrite En. clear En.
+  assert (R : run_flush_u (S L1 + (S L2 + S L1)) s0 = (s3, nl ++ T ++ nl)).
+  { rewrite run_flush_u_app, P1, run_flush_u_app, P2, P3. reflexivity. }
+  rewrite R. cbn [fst snd].
+  repeat split; try reflexivity.
+  intros m Hm.
+  destruct (le_lt_dec m L1) as [A|A].
+  - rewrite run_flush_u_text_state by (rewrite (len_phase_rest0_u s0 nl eq_refl T0); exact A). reflexivity.
+  - destruct (le_lt_dec m (S L1 + L2)) as [B|B].
+    + replace m with (S L1 + (m - S L1)) by lia. rewrite fst_run_flush_u_app, P1. cbn [fst].
+      rewrite run_flush_u_text_state by (rewrite (len_phase_rest0_u s1 T eq_refl T1); fold L2; lia). reflexivity.
+    + replace m with (S L1 + (S L2 + (m - S L1 - S L2))) by lia.
+      rewrite fst_run_flush_u_app, P1. cbn [fst]. rewrite fst_run_flush_u_app, P2. cbn [fst].
+      rewrite run_flush_u_text_state by (rewrite (len_phase_rest0_u s2 nl eq_refl T2); fold L1; lia). reflexivity.
+Qed.
+
+(* ================================================================== *)
+(* 3. the flush engines in the world: one-step laws                     *)
+(* ================================================================== *)
+
+(* write events of a list of events, in the order of the list *)
+Definition writes (evs : list event) : list (fsm * N * bool) :=
+  flat_map (fun e => match e with EWr f ch ok => [(f, ch, ok)] | _ => [] end) evs.
+Definition nowr (evs : list event) : bool :=
+  forallb (fun e => match e with EWr _ _ _ => false | _ => true end) evs.
+
+Lemma nowr_app : forall a b, nowr (a ++ b) = nowr a && nowr b.
+Proof. intros. apply forallb_app. Qed.
+Lemma writes_app : forall a b, writes (a ++ b) = writes a ++ writes b.
+Proof. intros. apply flat_map_app. Qed.
+Lemma nowr_writes : forall evs, nowr evs = true -> writes evs = [].
+Proof.
+  induction evs as [|e evs IH]; intros H; [reflexivity|].
+  cbn [nowr forallb] in H. apply andb_true_iff in H. destruct H as [H1 H2].
+  unfold writes. cbn [flat_map]. fold (writes evs). rewrite (IH H2).
+  destruct e; try reflexivity. discriminate.
+Qed.
+
+Section World.
+Variable D : desc.
+Variables ioS muS hS : Type.
+Variable io_read : ioS -> ioS * option N.
+Variable io_write : ioS -> N -> ioS * bool.
+Variable mu_lock : muS -> muS * bool.
+Variable mu_unlock : muS -> muS * bool.
+Variable h_call : hS -> hreq -> hS * hres.
+
+Local Notation world := (Fsm.world ioS muS hS).
+Local Notation mkWorld := (Fsm.mkWorld ioS muS hS).
+Local Notation st := (Fsm.st ioS muS hS).
+Local Notation tr := (Fsm.tr ioS muS hS).
+Local Notation io := (Fsm.io ioS muS hS).
+Local Notation mu := (Fsm.mu ioS muS hS).
+Local Notation hs := (Fsm.hs ioS muS hS).
+Local Notation logw := (Fsm.logw ioS muS hS).
+Local Notation upd_st := (Fsm.upd_st ioS muS hS).
+Local Notation set_st := (Fsm.set_st ioS muS hS).
+Local Notation set_io := (Fsm.set_io ioS muS hS).
+Local Notation set_mu := (Fsm.set_mu ioS muS hS).
+Local Notation set_hs := (Fsm.set_hs ioS muS hS).
+Local Notation busy := (Fsm.busy ioS muS hS).
+Local Notation bracket := (Fsm.bracket D ioS muS hS mu_lock mu_unlock).
+Local Notation api_trigger := (Fsm.api_trigger D ioS muS hS mu_lock mu_unlock).
+Local Notation api_hold_exit := (Fsm.api_hold_exit D ioS muS hS mu_lock mu_unlock).
+Local Notation apply_icall := (Fsm.apply_icall D ioS muS hS mu_lock mu_unlock).
+Local Notation call_h := (Fsm.call_h D ioS muS hS mu_lock mu_unlock h_call).
+Local Notation read_cmd_char := (Fsm.read_cmd_char ioS muS hS io_read).
+Local Notation reading := (Fsm.reading ioS muS hS io_read).
+Local Notation parse_write_args := (Fsm.parse_write_args D ioS muS hS mu_lock mu_unlock h_call).
+Local Notation format_read_args := (Fsm.format_read_args D ioS muS hS mu_lock mu_unlock h_call).
+Local Notation process_write_loop := (Fsm.process_write_loop D ioS muS hS mu_lock mu_unlock h_call).
+Local Notation process_run_loop := (Fsm.process_run_loop D ioS muS hS mu_lock mu_unlock h_call).
+Local Notation process_rt_loop := (Fsm.process_rt_loop D ioS muS hS mu_lock mu_unlock h_call).
+Local Notation process_io_write := (Fsm.process_io_write ioS muS hS io_write).
+Local Notation unsolicited_process_io_write := (Fsm.unsolicited_process_io_write ioS muS hS io_write).
+Local Notation unsolicited_events_service :=
+  (Fsm.unsolicited_events_service D ioS muS hS io_write mu_lock mu_unlock h_call).
+Local Notation cmd_service :=
+  (Fsm.cmd_service D ioS muS hS io_read io_write mu_lock mu_unlock h_call).
+Local Notation service_body :=
+  (Fsm.service_body D ioS muS hS io_read io_write mu_lock mu_unlock h_call).
+
+Ltac wsimpl := cbn [Fsm.st Fsm.tr Fsm.io Fsm.mu Fsm.hs Fsm.set_st Fsm.set_io Fsm.set_mu Fsm.set_hs
+                    Fsm.logw Fsm.upd_st Fsm.busy fst snd].
+
+(* process_io_write is flush_step_c plus the io oracle: no io at a NUL or outside the buffer; one
+   io_write of the byte under the cursor otherwise, and the state moves only if it is accepted *)
+Lemma process_io_write_eq : forall w,
+  process_io_write w =
+  match flush_step_c (st w) with
+  | (s', None) => (set_st s' w, ST_BUSY)
+  | (s', Some ch) =>
+    (let (io', ok) := io_write (io w) ch in
+     if ok then mkWorld s' io' (mu w) (hs w) (EWr ATCMD ch true :: tr w)
+     else mkWorld (st w) io' (mu w) (hs w) (EWr ATCMD ch false :: tr w), ST_BUSY)
+  end.
+Proof.
+  intros w. unfold Fsm.process_io_write, flush_step_c. cbv zeta.
+  destruct (wbuf_char (k_wbuf (k (st w))) (cbuf (st w)) (k_position (k (st w)))) as [ch|]; [|reflexivity].
+  destruct (ch =? 0)%N; [reflexivity|].
+  destruct (io_write (io w) ch) as [io' ok]. destruct ok; reflexivity.
+Qed.
+
+Lemma unsolicited_process_io_write_eq : forall w,
+  unsolicited_process_io_write w =
+  match flush_step_u (st w) with
+  | (s', None) => (set_st s' w, ST_BUSY)
+  | (s', Some ch) =>
+    (let (io', ok) := io_write (io w) ch in
+     if ok then mkWorld s' io' (mu w) (hs w) (EWr UNSOL ch true :: tr w)
+     else mkWorld (st w) io' (mu w) (hs w) (EWr UNSOL ch false :: tr w), ST_BUSY)
+  end.
+Proof.
+  intros w. unfold Fsm.unsolicited_process_io_write, flush_step_u. cbv zeta.
+  destruct (wbuf_char (u_wbuf (u (st w))) (ubuf (st w)) (u_position (u (st w)))) as [ch|]; [|reflexivity].
+  destruct (ch =? 0)%N; [reflexivity|].
+  destruct (io_write (io w) ch) as [io' ok]. destruct ok; reflexivity.
+Qed.
+
+Lemma cmd_service_flush : forall w, k_state (k (st w)) = CS_FLUSH -> cmd_service w = process_io_write w.
+Proof. intros w H. unfold Fsm.cmd_service. rewrite H. reflexivity. Qed.
+Lemma uns_service_flush : forall w, u_state (u (st w)) = US_FLUSH ->
+  unsolicited_events_service w = unsolicited_process_io_write w.
+Proof. intros w H. unfold Fsm.unsolicited_events_service. rewrite H. reflexivity. Qed.
+
+(* ---- law 1: a byte remains in the current phase ---- *)
+Theorem C11_step_cmd_char_proof : forall w ch rest,
+  k_state (k (st w)) = CS_FLUSH ->
+  phase_rest (k_wbuf (k (st w))) (cbuf (st w)) (k_position (k (st w))) = ch :: rest ->
+  cmd_service w =
+    (let (io', ok) := io_write (io w) ch in
+     if ok then mkWorld (setk_position (S (k_position (k (st w)))) (st w)) io' (mu w) (hs w)
+                        (EWr ATCMD ch true :: tr w)
+     else mkWorld (st w) io' (mu w) (hs w) (EWr ATCMD ch false :: tr w), ST_BUSY)
+  /\ phase_rest (k_wbuf (k (st w))) (cbuf (st w)) (S (k_position (k (st w)))) = rest.
+Proof.
+  intros w ch rest Hs H. unfold phase_rest in H. apply text_of_cons_inv in H.
+  destruct H as (H1 & H2 & H3). split; [|exact H3].
+  rewrite cmd_service_flush by exact Hs. rewrite process_io_write_eq. unfold flush_step_c.
+  rewrite wbuf_char_nth, H1. apply N.eqb_neq in H2. rewrite H2. reflexivity.
+Qed.
+
+Theorem C11_step_uns_char_proof : forall w ch rest,
+  u_state (u (st w)) = US_FLUSH ->
+  phase_rest (u_wbuf (u (st w))) (ubuf (st w)) (u_position (u (st w))) = ch :: rest ->
+  unsolicited_events_service w =
+    (let (io', ok) := io_write (io w) ch in
+     if ok then mkWorld (setu_position (S (u_position (u (st w)))) (st w)) io' (mu w) (hs w)
+                        (EWr UNSOL ch true :: tr w)
+     else mkWorld (st w) io' (mu w) (hs w) (EWr UNSOL ch false :: tr w), ST_BUSY)
+  /\ phase_rest (u_wbuf (u (st w))) (ubuf (st w)) (S (u_position (u (st w)))) = rest.
+Proof.
+  intros w ch rest Hs H. unfold phase_rest in H. apply text_of_cons_inv in H.
+  destruct H as (H1 & H2 & H3). split; [|exact H3].
+  rewrite uns_service_flush by exact Hs. rewrite unsolicited_process_io_write_eq. unfold flush_step_u.
+  rewrite wbuf_char_nth, H1. apply N.eqb_neq in H2. rewrite H2. reflexivity.
+Qed.
+
+(* ---- law 2: the cursor is on the terminating NUL ---- *)
+Theorem C11_step_cmd_phase_proof : forall w,
+  k_state (k (st w)) = CS_FLUSH ->
+  wbuf_char (k_wbuf (k (st w))) (cbuf (st w)) (k_position (k (st w))) = Some 0%N ->
+  phase_rest (k_wbuf (k (st w))) (cbuf (st w)) (k_position (k (st w))) = [] /\
+  cmd_service w = (set_st (phase_switch_c (st w)) w, ST_BUSY) /\
+  cbuf (phase_switch_c (st w)) = cbuf (st w).
+Proof.
+  intros w Hs H. split; [|split].
+  - unfold phase_rest. apply text_of_zero_nil. rewrite <- wbuf_char_nth. exact H.
+  - rewrite cmd_service_flush by exact Hs. rewrite process_io_write_eq. unfold flush_step_c.
+    rewrite H. reflexivity.
+  - unfold phase_switch_c. destruct (k_wstate (k (st w))); try reflexivity.
+    cbv zeta. destruct (cstate_beq _ _); reflexivity.
+Qed.
+
+Theorem C11_step_uns_phase_proof : forall w,
+  u_state (u (st w)) = US_FLUSH ->
+  wbuf_char (u_wbuf (u (st w))) (ubuf (st w)) (u_position (u (st w))) = Some 0%N ->
+  phase_rest (u_wbuf (u (st w))) (ubuf (st w)) (u_position (u (st w))) = [] /\
+  unsolicited_events_service w = (set_st (phase_switch_u (st w)) w, ST_BUSY) /\
+  ubuf (phase_switch_u (st w)) = ubuf (st w).
+Proof.
+  intros w Hs H. split; [|split].
+  - unfold phase_rest. apply text_of_zero_nil. rewrite <- wbuf_char_nth. exact H.
+  - rewrite uns_service_flush by exact Hs. rewrite unsolicited_process_io_write_eq. unfold flush_step_u.
+    rewrite H. reflexivity.
+  - unfold phase_switch_u. destruct (u_wstate (u (st w))); reflexivity.
+Qed.
+
+(* the converse reading of law 2's hypothesis: nothing remains and the cursor is inside the buffer *)
+Lemma phase_rest_nil_char : forall wb main p c,
+  phase_rest wb main p = [] -> wbuf_char wb main p = Some c -> c = 0%N.
+Proof. intros wb main p c H1 H2. rewrite wbuf_char_nth in H2. eapply text_of_nil_inv; eassumption. Qed.
+
+(* agreement of the pure step with the world step when io_write accepts *)
+Theorem C11_flush_step_c_agrees_proof : forall w,
+  k_state (k (st w)) = CS_FLUSH ->
+  (forall ch, snd (io_write (io w) ch) = true) ->
+  st (fst (cmd_service w)) = fst (flush_step_c (st w)) /\
+  tr (fst (cmd_service w)) =
+    match snd (flush_step_c (st w)) with Some ch => EWr ATCMD ch true :: tr w | None => tr w end.
+Proof.
+  intros w Hs Hok. rewrite cmd_service_flush by exact Hs. rewrite process_io_write_eq.
+  destruct (flush_step_c (st w)) as [s' [ch|]]; [|split; reflexivity].
+  specialize (Hok ch). destruct (io_write (io w) ch) as [io' ok]. cbn [snd] in Hok. subst ok.
+  split; reflexivity.
+Qed.
+
+Theorem C11_flush_step_u_agrees_proof : forall w,
+  u_state (u (st w)) = US_FLUSH ->
+  (forall ch, snd (io_write (io w) ch) = true) ->
+  st (fst (unsolicited_events_service w)) = fst (flush_step_u (st w)) /\
+  tr (fst (unsolicited_events_service w)) =
+    match snd (flush_step_u (st w)) with Some ch => EWr UNSOL ch true :: tr w | None => tr w end.
+Proof.
+  intros w Hs Hok. rewrite uns_service_flush by exact Hs. rewrite unsolicited_process_io_write_eq.
+  destruct (flush_step_u (st w)) as [s' [ch|]]; [|split; reflexivity].
+  specialize (Hok ch). destruct (io_write (io w) ch) as [io' ok]. cbn [snd] in Hok. subst ok.
+  split; reflexivity.
+Qed.
+
+End World.
+
+(* ================================================================== *)
+(* 4. frames: what each machine's step may change in the state          *)
+(* ================================================================== *)
+
+(* the event machine's registers and buffer, without its queue *)
+Definition upart (s : state) :=
+  (u_state (u s), u_index (u s), u_position (u s), u_cmd (u s), u_var (u s), u_type (u s),
+   u_wbuf (u s), u_wstate (u s), u_wafter (u s), ubuf s).
+(* the command machine's registers and buffer, without its state and the two hold registers *)
+Definition kpart (s : state) :=
+  (cbuf s, k_index (k s), k_partial (k s), k_length (k s), k_position (k s), k_write_size (k s),
+   k_cmd (k s), k_var (k s), k_type (k s), k_char (k s), k_cr (k s), k_wbuf (k s), k_wstate (k s),
+   k_wafter (k s), k_implicit (k s)).
+
+(* s was reached from s0 by command-machine work: the event machine's registers and buffer are
+   untouched (its queue may have grown through a handler's inner trigger call), and CS_FLUSH was not
+   entered *)
+Definition cfr (s0 s : state) : Prop :=
+  upart s = upart s0 /\ (k_state (k s) = CS_FLUSH -> k_state (k s0) = CS_FLUSH).
+(* s was reached from s0 by event-machine work: the command machine's registers and buffer are
+   untouched, US_FLUSH was not entered; the command machine's state and hold flag are untouched
+   (strict = true) or the state may have been forced to CS_HOLD (strict = false: an event-side
+   handler returned HOLD) *)
+Definition efr (strict : bool) (s0 s : state) : Prop :=
+  kpart s = kpart s0 /\ (u_state (u s) = US_FLUSH -> u_state (u s0) = US_FLUSH) /\
+  (if strict then k_state (k s) = k_state (k s0) /\ k_hold (k s) = k_hold (k s0)
+   else k_state (k s) = k_state (k s0) \/ k_state (k s) = CS_HOLD).
+Definition fr (b : bool) (f : fsm) : state -> state -> Prop :=
+  match f with ATCMD => cfr | UNSOL => efr b end.
+
+Lemma fr_refl : forall b f s, fr b f s s.
+Proof.
+  intros b [|] s; cbn [fr]; unfold cfr, efr.
+  - split; [reflexivity|auto].
+  - split; [reflexivity|]. split; [auto|]. destruct b; auto.
+Qed.
+
+Lemma efr_weaken : forall b s0 s, efr true s0 s -> efr b s0 s.
+Proof. intros [|] s0 s H; [exact H|]. destruct H as (H1 & H2 & H3 & H4). repeat split; auto. Qed.
+
+Lemma frc_setk_index : forall b s0 s v, fr b ATCMD s0 s -> fr b ATCMD s0 (setk_index v s).
+Proof. intros b s0 s v H. exact H. Qed.
+Lemma frc_setk_partial : forall b s0 s v, fr b ATCMD s0 s -> fr b ATCMD s0 (setk_partial v s).
+Proof. intros b s0 s v H. exact H. Qed.
+Lemma frc_setk_length : forall b s0 s v, fr b ATCMD s0 s -> fr b ATCMD s0 (setk_length v s).
+Proof. intros b s0 s v H. exact H. Qed.
+Lemma frc_setk_position : forall b s0 s v, fr b ATCMD s0 s -> fr b ATCMD s0 (setk_position v s).
+Proof. intros b s0 s v H. exact H. Qed.
+Lemma frc_setk_write_size : forall b s0 s v, fr b ATCMD s0 s -> fr b ATCMD s0 (setk_write_size v s).
+Proof. intros b s0 s v H. exact H. Qed.
+Lemma frc_setk_cmd : forall b s0 s v, fr b ATCMD s0 s -> fr b ATCMD s0 (setk_cmd v s).
+Proof. intros b s0 s v H. exact H. Qed.
+Lemma frc_setk_var : forall b s0 s v, fr b ATCMD s0 s -> fr b ATCMD s0 (setk_var v s).
+Proof. intros b s0 s v H. exact H. Qed.
+Lemma frc_setk_type : forall b s0 s v, fr b ATCMD s0 s -> fr b ATCMD s0 (setk_type v s).
+Proof. intros b s0 s v H. exact H. Qed.
+Lemma frc_setk_char : forall b s0 s v, fr b ATCMD s0 s -> fr b ATCMD s0 (setk_char v s).
+Proof. intros b s0 s v H. exact H. Qed.
+Lemma frc_setk_cr : forall b s0 s v, fr b ATCMD s0 s -> fr b ATCMD s0 (setk_cr v s).
+Proof. intros b s0 s v H. exact H. Qed.
+Lemma frc_setk_hold : forall b s0 s v, fr b ATCMD s0 s -> fr b ATCMD s0 (setk_hold v s).
+Proof. intros b s0 s v H. exact H. Qed.
+Lemma frc_setk_hold_exit : forall b s0 s v, fr b ATCMD s0 s -> fr b ATCMD s0 (setk_hold_exit v s).
+Proof. intros b s0 s v H. exact H. Qed.
+Lemma frc_setk_wbuf : forall b s0 s v, fr b ATCMD s0 s -> fr b ATCMD s0 (setk_wbuf v s).
+Proof. intros b s0 s v H. exact H. Qed.
+Lemma frc_setk_wstate : forall b s0 s v, fr b ATCMD s0 s -> fr b ATCMD s0 (setk_wstate v s).
+Proof. intros b s0 s v H. exact H. Qed.
+Lemma frc_setk_wafter : forall b s0 s v, fr b ATCMD s0 s -> fr b ATCMD s0 (setk_wafter v s).
+Proof. intros b s0 s v H. exact H. Qed.
+Lemma frc_setk_implicit : forall b s0 s v, fr b ATCMD s0 s -> fr b ATCMD s0 (setk_implicit v s).
+Proof. intros b s0 s v H. exact H. Qed.
+Lemma frc_setk_state : forall b s0 s v, v <> CS_FLUSH -> fr b ATCMD s0 s -> fr b ATCMD s0 (setk_state v s).
+Proof. intros b s0 s v Hv [H1 H2]. split; [exact H1|]. intros E. cbn in E. contradiction. Qed.
+Lemma frc_set_cbuf : forall b s0 s v, fr b ATCMD s0 s -> fr b ATCMD s0 (set_cbuf v s).
+Proof. intros b s0 s v H. exact H. Qed.
+Lemma frc_set_mem : forall b s0 s v, fr b ATCMD s0 s -> fr b ATCMD s0 (set_mem v s).
+Proof. intros b s0 s v H. exact H. Qed.
+Lemma frc_set_gL : forall b s0 s v, fr b ATCMD s0 s -> fr b ATCMD s0 (set_gL v s).
+Proof. intros b s0 s v H. exact H. Qed.
+Lemma frc_set_gS : forall b s0 s v, fr b ATCMD s0 s -> fr b ATCMD s0 (set_gS v s).
+Proof. intros b s0 s v H. exact H. Qed.
+Lemma frc_set_gR : forall b s0 s v, fr b ATCMD s0 s -> fr b ATCMD s0 (set_gR v s).
+Proof. intros b s0 s v H. exact H. Qed.
+Lemma frc_set_fault : forall b s0 s v, fr b ATCMD s0 s -> fr b ATCMD s0 (set_fault v s).
+Proof. intros b s0 s v H. exact H. Qed.
+Lemma frc_set_fault_flag : forall b s0 s, fr b ATCMD s0 s -> fr b ATCMD s0 (set_fault_flag s).
+Proof. intros b s0 s H. exact H. Qed.
+Lemma frc_setu_ring : forall b s0 s v, fr b ATCMD s0 s -> fr b ATCMD s0 (setu_ring v s).
+Proof. intros b s0 s v H. exact H. Qed.
+Lemma frc_setu_tail : forall b s0 s v, fr b ATCMD s0 s -> fr b ATCMD s0 (setu_tail v s).
+Proof. intros b s0 s v H. exact H. Qed.
+Lemma frc_setu_head : forall b s0 s v, fr b ATCMD s0 s -> fr b ATCMD s0 (setu_head v s).
+Proof. intros b s0 s v H. exact H. Qed.
+Lemma frc_setu_count : forall b s0 s v, fr b ATCMD s0 s -> fr b ATCMD s0 (setu_count v s).
+Proof. intros b s0 s v H. exact H. Qed.
+Lemma fru_setu_index : forall b s0 s v, fr b UNSOL s0 s -> fr b UNSOL s0 (setu_index v s).
+Proof. intros b s0 s v H. exact H. Qed.
+Lemma fru_setu_position : forall b s0 s v, fr b UNSOL s0 s -> fr b UNSOL s0 (setu_position v s).
+Proof. intros b s0 s v H. exact H. Qed.
+Lemma fru_setu_cmd : forall b s0 s v, fr b UNSOL s0 s -> fr b UNSOL s0 (setu_cmd v s).
+Proof. intros b s0 s v H. exact H. Qed.
+Lemma fru_setu_var : forall b s0 s v, fr b UNSOL s0 s -> fr b UNSOL s0 (setu_var v s).
+Proof. intros b s0 s v H. exact H. Qed.
+Lemma fru_setu_type : forall b s0 s v, fr b UNSOL s0 s -> fr b UNSOL s0 (setu_type v s).
+Proof. intros b s0 s v H. exact H. Qed.
+Lemma fru_setu_wbuf : forall b s0 s v, fr b UNSOL s0 s -> fr b UNSOL s0 (setu_wbuf v s).
+Proof. intros b s0 s v H. exact H. Qed.
+Lemma fru_setu_wstate : forall b s0 s v, fr b UNSOL s0 s -> fr b UNSOL s0 (setu_wstate v s).
+Proof. intros b s0 s v H. exact H. Qed.
+Lemma fru_setu_wafter : forall b s0 s v, fr b UNSOL s0 s -> fr b UNSOL s0 (setu_wafter v s).
+Proof. intros b s0 s v H. exact H. Qed.
+Lemma fru_setu_ring : forall b s0 s v, fr b UNSOL s0 s -> fr b UNSOL s0 (setu_ring v s).
+Proof. intros b s0 s v H. exact H. Qed.
+Lemma fru_setu_tail : forall b s0 s v, fr b UNSOL s0 s -> fr b UNSOL s0 (setu_tail v s).
+Proof. intros b s0 s v H. exact H. Qed.
+Lemma fru_setu_head : forall b s0 s v, fr b UNSOL s0 s -> fr b UNSOL s0 (setu_head v s).
+Proof. intros b s0 s v H. exact H. Qed.
+Lemma fru_setu_count : forall b s0 s v, fr b UNSOL s0 s -> fr b UNSOL s0 (setu_count v s).
+Proof. intros b s0 s v H. exact H. Qed.
+Lemma fru_setu_state : forall b s0 s v, v <> US_FLUSH -> fr b UNSOL s0 s -> fr b UNSOL s0 (setu_state v s).
+Proof. intros b s0 s v Hv (H1 & H2 & H3). split; [exact H1|]. split; [|exact H3]. intros E. cbn in E. contradiction. Qed.
+Lemma fru_set_ubuf : forall b s0 s v, fr b UNSOL s0 s -> fr b UNSOL s0 (set_ubuf v s).
+Proof. intros b s0 s v H. exact H. Qed.
+Lemma fru_set_mem : forall b s0 s v, fr b UNSOL s0 s -> fr b UNSOL s0 (set_mem v s).
+Proof. intros b s0 s v H. exact H. Qed.
+Lemma fru_set_gL : forall b s0 s v, fr b UNSOL s0 s -> fr b UNSOL s0 (set_gL v s).
+Proof. intros b s0 s v H. exact H. Qed.
+Lemma fru_set_gS : forall b s0 s v, fr b UNSOL s0 s -> fr b UNSOL s0 (set_gS v s).
+Proof. intros b s0 s v H. exact H. Qed.
+Lemma fru_set_gR : forall b s0 s v, fr b UNSOL s0 s -> fr b UNSOL s0 (set_gR v s).
+Proof. intros b s0 s v H. exact H. Qed.
+Lemma fru_set_fault : forall b s0 s v, fr b UNSOL s0 s -> fr b UNSOL s0 (set_fault v s).
+Proof. intros b s0 s v H. exact H. Qed.
+Lemma fru_set_fault_flag : forall b s0 s, fr b UNSOL s0 s -> fr b UNSOL s0 (set_fault_flag s).
+Proof. intros b s0 s H. exact H. Qed.
+Lemma fru_setk_hold_exit : forall b s0 s v, fr b UNSOL s0 s -> fr b UNSOL s0 (setk_hold_exit v s).
+Proof. intros b s0 s v H. exact H. Qed.
+Create HintDb fr.
+#[global] Hint Resolve fr_refl frc_setk_index frc_setk_partial frc_setk_length frc_setk_position frc_setk_write_size frc_setk_cmd frc_setk_var frc_setk_type frc_setk_char frc_setk_cr frc_setk_hold frc_setk_hold_exit frc_setk_wbuf frc_setk_wstate frc_setk_wafter frc_setk_implicit frc_setk_state frc_set_cbuf frc_set_mem frc_set_gL frc_set_gS frc_set_gR frc_set_fault frc_set_fault_flag frc_setu_ring frc_setu_tail frc_setu_head frc_setu_count fru_setu_index fru_setu_position fru_setu_cmd fru_setu_var fru_setu_type fru_setu_wbuf fru_setu_wstate fru_setu_wafter fru_setu_ring fru_setu_tail fru_setu_head fru_setu_count fru_setu_state fru_set_ubuf fru_set_mem fru_set_gL fru_set_gS fru_set_gR fru_set_fault fru_set_fault_flag fru_setk_hold_exit : fr.
+#[global] Hint Extern 1 (_ <> _) => discriminate : fr.
+
+Ltac fr_step :=
+  match goal with
+  | |- context [match ?x with _ => _ end] =>
+    lazymatch type of x with
+    | prod state _ =>
+      let E := fresh "E" in let s0 := fresh "s" in let b0 := fresh "b" in
+      destruct x as [s0 b0] eqn:E; apply (f_equal fst) in E; cbn [fst] in E; subst s0
+    | _ => destruct x eqn:?
+    end
+  end.
+Ltac fr_solve := cbv beta zeta; repeat (fr_step; cbn [fst snd]); auto 60 with fr.
+
+Lemma fr_setg_pos : forall b f s0 s v, fr b f s0 s -> fr b f s0 (setg_pos f v s).
+Proof. intros b [|] s0 s v H; exact H. Qed.
+Lemma fr_setg_buf : forall b f s0 s v, fr b f s0 s -> fr b f s0 (setg_buf f v s).
+Proof. intros b [|] s0 s v H; exact H. Qed.
+Lemma fr_setg_var : forall b f s0 s v, fr b f s0 s -> fr b f s0 (setg_var f v s).
+Proof. intros b [|] s0 s v H; exact H. Qed.
+Lemma fr_setg_index : forall b f s0 s v, fr b f s0 s -> fr b f s0 (setg_index f v s).
+Proof. intros b [|] s0 s v H; exact H. Qed.
+Lemma fr_set_fault_flag : forall b f s0 s, fr b f s0 s -> fr b f s0 (set_fault_flag s).
+Proof. intros b [|] s0 s H; exact H. Qed.
+Lemma fr_set_mem : forall b f s0 s v, fr b f s0 s -> fr b f s0 (set_mem v s).
+Proof. intros b [|] s0 s v H; exact H. Qed.
+Lemma fr_setk_hold_exit : forall b f s0 s v, fr b f s0 s -> fr b f s0 (setk_hold_exit v s).
+Proof. intros b [|] s0 s v H; exact H. Qed.
+#[global] Hint Resolve fr_setg_pos fr_setg_buf fr_setg_var fr_setg_index fr_set_fault_flag fr_set_mem fr_setk_hold_exit : fr.
+
+Lemma fr_put_cur : forall b f s0 s c, fr b f s0 s -> fr b f s0 (put_cur f c s).
+Proof. intros. unfold put_cur. fr_solve. Qed.
+#[global] Hint Resolve fr_put_cur : fr.
+Lemma fr_print_string : forall b f s0 s t, fr b f s0 s -> fr b f s0 (fst (print_string f s t)).
+Proof. intros. unfold print_string. fr_solve. Qed.
+Lemma fr_print_strings : forall b f s0 s t, fr b f s0 s -> fr b f s0 (fst (print_strings f s t)).
+Proof. intros. unfold print_strings. fr_solve. Qed.
+#[global] Hint Resolve fr_print_string fr_print_strings : fr.
+Lemma fr_ack_error : forall b s0 s, fr b ATCMD s0 s -> fr b ATCMD s0 (ack_error s).
+Proof. intros. unfold ack_error, start_flush_c. fr_solve. Qed.
+Lemma fr_ack_ok : forall b s0 s, fr b ATCMD s0 s -> fr b ATCMD s0 (ack_ok s).
+Proof. intros. unfold ack_ok, start_flush_c. fr_solve. Qed.
+Lemma fr_unsolicited_reset_state : forall b s0 s, fr b UNSOL s0 s -> fr b UNSOL s0 (unsolicited_reset_state s).
+Proof. intros. unfold unsolicited_reset_state. fr_solve. Qed.
+#[global] Hint Resolve fr_ack_error fr_ack_ok fr_unsolicited_reset_state : fr.
+Lemma fr_end_with_error : forall b f s0 s, fr b f s0 s -> fr b f s0 (end_with_error f s).
+Proof. intros. unfold end_with_error. fr_solve. Qed.
+Lemma fr_end_with_ok : forall b f s0 s, fr b f s0 s -> fr b f s0 (end_with_ok f s).
+Proof. intros. unfold end_with_ok. fr_solve. Qed.
+Lemma fr_set_loop_state : forall b f rd s0 s, fr b f s0 s -> fr b f s0 (set_loop_state f rd s).
+Proof. intros. unfold set_loop_state. fr_solve. Qed.
+Lemma fr_start_flush_c : forall b a s0 s, fr b ATCMD s0 s -> fr b ATCMD s0 (start_flush_c a s).
+Proof. intros. unfold start_flush_c. fr_solve. Qed.
+Lemma fr_start_flush_u : forall b a s0 s, fr b UNSOL s0 s -> fr b UNSOL s0 (start_flush_u a s).
+Proof. intros. unfold start_flush_u. fr_solve. Qed.
+Lemma fr_start_flush_raw_c : forall b a s0 s, fr b ATCMD s0 s -> fr b ATCMD s0 (start_flush_raw_c a s).
+Proof. intros. unfold start_flush_raw_c. fr_solve. Qed.
+#[global] Hint Resolve fr_end_with_error fr_end_with_ok fr_set_loop_state fr_start_flush_c fr_start_flush_u fr_start_flush_raw_c : fr.
+Lemma fr_start_flush_after_ok : forall b f s0 s, fr b f s0 s -> fr b f s0 (start_flush_after_ok f s).
+Proof. intros. unfold start_flush_after_ok. fr_solve. Qed.
+Lemma fr_start_flush_after : forall b f a1 a2 s0 s, fr b f s0 s -> fr b f s0 (start_flush_after f a1 a2 s).
+Proof. intros. unfold start_flush_after. fr_solve. Qed.
+#[global] Hint Resolve fr_start_flush_after_ok fr_start_flush_after : fr.
+Lemma fr_print_response_test : forall D b f s0 s, fr b f s0 s -> fr b f s0 (fst (print_response_test D f s)).
+Proof. intros. unfold print_response_test. fr_solve. Qed.
+#[global] Hint Resolve fr_print_response_test : fr.
+Lemma fr_spfta : forall D b f s0 s, fr b f s0 s -> fr b f s0 (start_processing_format_test_args D f s).
+Proof. intros. unfold start_processing_format_test_args. fr_solve. Qed.
+Lemma fr_spfra : forall D b f s0 s, fr b f s0 s -> fr b f s0 (start_processing_format_read_args D f s).
+Proof. intros. unfold start_processing_format_read_args. fr_solve. Qed.
+Lemma fr_next_format_var : forall D b f s0 s, fr b f s0 s -> fr b f s0 (fst (next_format_var D f s)).
+Proof. intros. unfold next_format_var. fr_solve. Qed.
+#[global] Hint Resolve fr_spfta fr_spfra fr_next_format_var : fr.
+
+Lemma fr_set_cmd_state : forall b s0 s i v, fr b ATCMD s0 s -> fr b ATCMD s0 (set_cmd_state s i v).
+Proof. intros. unfold set_cmd_state. fr_solve. Qed.
+Lemma fr_prepare_search_command : forall b s0 s, fr b ATCMD s0 s -> fr b ATCMD s0 (prepare_search_command s).
+Proof. intros. unfold prepare_search_command. fr_solve. Qed.
+Lemma fr_prepare_parse_command : forall b s0 s, fr b ATCMD s0 s -> fr b ATCMD s0 (prepare_parse_command s).
+Proof. intros. unfold prepare_parse_command. fr_solve. Qed.
+#[global] Hint Resolve fr_set_cmd_state fr_prepare_search_command fr_prepare_parse_command : fr.
+Lemma fr_update_command : forall D b s0 s, fr b ATCMD s0 s -> fr b ATCMD s0 (update_command D s).
+Proof. intros. unfold update_command. fr_solve. Qed.
+Lemma fr_search_command : forall D b s0 s, fr b ATCMD s0 s -> fr b ATCMD s0 (search_command D s).
+Proof. intros. unfold search_command. fr_solve. Qed.
+Lemma fr_command_found : forall D b s0 s, fr b ATCMD s0 s -> fr b ATCMD s0 (command_found D s).
+Proof. intros. unfold command_found. fr_solve. Qed.
+Lemma fr_start_print_cmd_list : forall D b s0 s, fr b ATCMD s0 s -> fr b ATCMD s0 (start_print_cmd_list D s).
+Proof. intros. unfold start_print_cmd_list. fr_solve. Qed.
+Lemma fr_cmd_list_next_cmd : forall D b s0 s, fr b ATCMD s0 s -> fr b ATCMD s0 (fst (cmd_list_next_cmd D s)).
+Proof. intros. unfold cmd_list_next_cmd. fr_solve. Qed.
+Lemma fr_print_current_cmd_full_name : forall b s0 s c sf,
+  fr b ATCMD s0 s -> fr b ATCMD s0 (fst (print_current_cmd_full_name s c sf)).
+Proof. intros. unfold print_current_cmd_full_name. fr_solve. Qed.
+#[global] Hint Resolve fr_update_command fr_search_command fr_command_found fr_start_print_cmd_list
+  fr_cmd_list_next_cmd fr_print_current_cmd_full_name : fr.
+Lemma fr_print_cmd_form : forall b s0 s c a sf n, fr b ATCMD s0 s -> fr b ATCMD s0 (print_cmd_form s c a sf n).
+Proof. intros. unfold print_cmd_form. fr_solve. Qed.
+#[global] Hint Resolve fr_print_cmd_form : fr.
+Lemma fr_print_cmd_list : forall D b s0 s, fr b ATCMD s0 s -> fr b ATCMD s0 (print_cmd_list D s).
+Proof. intros. unfold print_cmd_list. fr_solve. Qed.
+Lemma fr_enable_hold_state : forall b f s0 s, (f = UNSOL -> b = false) ->
+  fr b f s0 s -> fr b f s0 (enable_hold_state s).
+Proof.
+  intros b [|] s0 s Hb H.
+  - unfold enable_hold_state. fr_solve.
+  - rewrite (Hb eq_refl) in *. destruct H as (H1 & H2 & H3). split; [exact H1|]. split; [exact H2|].
+    right. reflexivity.
+Qed.
+Lemma fr_hold_exit : forall b f s0 s z, fr b f s0 s -> fr b f s0 (fst (hold_exit s z)).
+Proof. intros. unfold hold_exit. fr_solve. Qed.
+Lemma fr_process_hold_state : forall b s0 s, fr b ATCMD s0 s -> fr b ATCMD s0 (process_hold_state s).
+Proof. intros. unfold process_hold_state. fr_solve. Qed.
+Lemma fr_reset_state : forall b s0 s, fr b ATCMD s0 s -> fr b ATCMD s0 (reset_state s).
+Proof. intros. unfold reset_state. fr_solve. Qed.
+Lemma fr_apply_poke : forall b f s0 s p, fr b f s0 s -> fr b f s0 (apply_poke s p).
+Proof. intros. unfold apply_poke. fr_solve. Qed.
+#[global] Hint Resolve fr_print_cmd_list fr_enable_hold_state fr_hold_exit fr_process_hold_state fr_reset_state fr_apply_poke : fr.
+Lemma fr_apply_pokes : forall b f s0 ps s, fr b f s0 s -> fr b f s0 (fold_left apply_poke ps s).
+Proof. induction ps as [|p ps IH]; intros s H; cbn [fold_left]; auto with fr. Qed.
+Lemma fr_apply_edit : forall b f s0 s e, fr b f s0 s -> fr b f s0 (apply_edit f e s).
+Proof. intros. unfold apply_edit. fr_solve. Qed.
+Lemma fr_format_test_args : forall D b f s0 s, fr b f s0 s -> fr b f s0 (format_test_args D f s).
+Proof. intros. unfold format_test_args. fr_solve. Qed.
+#[global] Hint Resolve fr_apply_pokes fr_apply_edit fr_format_test_args : fr.
+Lemma fr_push : forall D b f s0 s ci t, fr b f s0 s -> fr b f s0 (fst (push_unsolicited_cmd D s ci t)).
+Proof. intros D b [|] s0 s ci t H; unfold push_unsolicited_cmd; fr_solve. Qed.
+Lemma fr_pop : forall D b s0 s, fr b UNSOL s0 s -> fr b UNSOL s0 (fst (pop_unsolicited_cmd D s)).
+Proof. intros. unfold pop_unsolicited_cmd. fr_solve. Qed.
+#[global] Hint Resolve fr_push fr_pop : fr.
+Lemma fr_check_unsolicited_buffers : forall D b s0 s, fr b UNSOL s0 s -> fr b UNSOL s0 (check_unsolicited_buffers D s).
+Proof. intros. unfold check_unsolicited_buffers. fr_solve. Qed.
+#[global] Hint Resolve fr_check_unsolicited_buffers : fr.
+Lemma frc_enable_hold_state : forall b s0 s, fr b ATCMD s0 s -> fr b ATCMD s0 (enable_hold_state s).
+Proof. intros. apply fr_enable_hold_state; [discriminate|assumption]. Qed.
+#[global] Hint Resolve frc_enable_hold_state : fr.
+
+(* ================================================================== *)
+(* 5. the frames at the level of worlds (arbitrary oracles)              *)
+(* ================================================================== *)
+
+
+(* ---- what one pure flush step touches ---- *)
+Lemma text_of_cons_intro : forall p l ch, nth_error l p = Some ch -> ch <> 0%N ->
+  text_of (skipn p l) = ch :: text_of (skipn (S p) l).
+Proof.
+  induction p as [|p IH]; intros l ch H Hc; destruct l as [|c r]; cbn [nth_error] in H; try discriminate.
+  - inversion H; subst. cbn [skipn text_of]. apply N.eqb_neq in Hc. rewrite Hc. reflexivity.
+  - cbn [skipn]. apply IH; assumption.
+Qed.
+
+Lemma ustate_beq_flush : forall x, ustate_beq x US_FLUSH = true <-> x = US_FLUSH.
+Proof. intros x. destruct x; cbn; split; intros H; try reflexivity; discriminate. Qed.
+Lemma cstate_beq_flush : forall x, cstate_beq x CS_FLUSH = true <-> x = CS_FLUSH.
+Proof. intros x. destruct x; cbn; split; intros H; try reflexivity; discriminate. Qed.
+
+Lemma flush_step_c_upart : forall s, upart (fst (flush_step_c s)) = upart s.
+Proof.
+  intros s. unfold flush_step_c.
+  destruct (wbuf_char _ _ _) as [ch|]; [|reflexivity].
+  destruct (ch =? 0)%N; [|reflexivity]. cbn [fst]. unfold phase_switch_c.
+  destruct (k_wstate (k s)); try reflexivity. cbv zeta. destruct (cstate_beq _ _); reflexivity.
+Qed.
+Lemma flush_step_u_k : forall s, k (fst (flush_step_u s)) = k s /\ cbuf (fst (flush_step_u s)) = cbuf s.
+Proof.
+  intros s. unfold flush_step_u.
+  destruct (wbuf_char _ _ _) as [ch|]; [|split; reflexivity].
+  destruct (ch =? 0)%N; [|split; reflexivity]. cbn [fst]. unfold phase_switch_u.
+  destruct (u_wstate (u s)); split; reflexivity.
+Qed.
+Lemma flush_step_c_some : forall s s' ch, flush_step_c s = (s', Some ch) ->
+  s' = setk_position (S (k_position (k s))) s /\
+  phase_rest (k_wbuf (k s)) (cbuf s) (k_position (k s)) =
+    ch :: phase_rest (k_wbuf (k s)) (cbuf s) (S (k_position (k s))).
+Proof.
+  intros s s' ch H. unfold flush_step_c in H.
+  destruct (wbuf_char _ _ _) as [c|] eqn:E; [|discriminate].
+  destruct (c =? 0)%N eqn:E0; inversion H; subst. split; [reflexivity|].
+  rewrite wbuf_char_nth in E. apply N.eqb_neq in E0. unfold phase_rest. apply text_of_cons_intro; assumption.
+Qed.
+Lemma flush_step_u_some : forall s s' ch, flush_step_u s = (s', Some ch) ->
+  s' = setu_position (S (u_position (u s))) s /\
+  phase_rest (u_wbuf (u s)) (ubuf s) (u_position (u s)) =
+    ch :: phase_rest (u_wbuf (u s)) (ubuf s) (S (u_position (u s))).
+Proof.
+  intros s s' ch H. unfold flush_step_u in H.
+  destruct (wbuf_char _ _ _) as [c|] eqn:E; [|discriminate].
+  destruct (c =? 0)%N eqn:E0; inversion H; subst. split; [reflexivity|].
+  rewrite wbuf_char_nth in E. apply N.eqb_neq in E0. unfold phase_rest. apply text_of_cons_intro; assumption.
+Qed.
+
+(* the flush exclusion *)
+Definition excl (s : state) : Prop := ~ (k_state (k s) = CS_FLUSH /\ u_state (u s) = US_FLUSH).
+
+(* ---- the two wait states ---- *)
+Theorem C11_wait_cmd_proof : forall s, k_state (k s) = CS_FLUSH_WAIT ->
+  (k_state (k (process_io_write_wait s)) = CS_FLUSH <-> u_state (u s) <> US_FLUSH) /\
+  (u_state (u s) <> US_FLUSH -> process_io_write_wait s = setk_state CS_FLUSH s) /\
+  (u_state (u s) = US_FLUSH -> process_io_write_wait s = s).
+Proof.
+  intros s Hs. unfold process_io_write_wait.
+  destruct (ustate_beq (u_state (u s)) US_FLUSH) eqn:E; cbn [negb].
+  - apply ustate_beq_flush in E. repeat split; intros; try congruence.
+  - assert (N : u_state (u s) <> US_FLUSH) by (intro X; apply ustate_beq_flush in X; congruence).
+    repeat split; intros; try reflexivity; try assumption; contradiction.
+Qed.
+
+Theorem C11_wait_uns_proof : forall s, u_state (u s) = US_FLUSH_WAIT ->
+  (u_state (u (unsolicited_process_io_write_wait s)) = US_FLUSH <-> k_state (k s) <> CS_FLUSH) /\
+  (k_state (k s) <> CS_FLUSH -> unsolicited_process_io_write_wait s = setu_state US_FLUSH s) /\
+  (k_state (k s) = CS_FLUSH -> unsolicited_process_io_write_wait s = s).
+Proof.
+  intros s Hs. unfold unsolicited_process_io_write_wait.
+  destruct (cstate_beq (k_state (k s)) CS_FLUSH) eqn:E; cbn [negb].
+  - apply cstate_beq_flush in E. repeat split; intros; try congruence.
+  - assert (N : k_state (k s) <> CS_FLUSH) by (intro X; apply cstate_beq_flush in X; congruence).
+    repeat split; intros; try reflexivity; try assumption; contradiction.
+Qed.
+Section World2.
+Variable D : desc.
+Variables ioS muS hS : Type.
+Variable io_read : ioS -> ioS * option N.
+Variable io_write : ioS -> N -> ioS * bool.
+Variable mu_lock : muS -> muS * bool.
+Variable mu_unlock : muS -> muS * bool.
+Variable h_call : hS -> hreq -> hS * hres.
+
+Local Notation world := (Fsm.world ioS muS hS).
+Local Notation mkWorld := (Fsm.mkWorld ioS muS hS).
+Local Notation st := (Fsm.st ioS muS hS).
+Local Notation tr := (Fsm.tr ioS muS hS).
+Local Notation io := (Fsm.io ioS muS hS).
+Local Notation mu := (Fsm.mu ioS muS hS).
+Local Notation hs := (Fsm.hs ioS muS hS).
+Local Notation logw := (Fsm.logw ioS muS hS).
+Local Notation upd_st := (Fsm.upd_st ioS muS hS).
+Local Notation set_st := (Fsm.set_st ioS muS hS).
+Local Notation set_io := (Fsm.set_io ioS muS hS).
+Local Notation set_mu := (Fsm.set_mu ioS muS hS).
+Local Notation set_hs := (Fsm.set_hs ioS muS hS).
+Local Notation busy := (Fsm.busy ioS muS hS).
+Local Notation bracket := (Fsm.bracket D ioS muS hS mu_lock mu_unlock).
+Local Notation api_trigger := (Fsm.api_trigger D ioS muS hS mu_lock mu_unlock).
+Local Notation api_hold_exit := (Fsm.api_hold_exit D ioS muS hS mu_lock mu_unlock).
+Local Notation apply_icall := (Fsm.apply_icall D ioS muS hS mu_lock mu_unlock).
+Local Notation call_h := (Fsm.call_h D ioS muS hS mu_lock mu_unlock h_call).
+Local Notation read_cmd_char := (Fsm.read_cmd_char ioS muS hS io_read).
+Local Notation reading := (Fsm.reading ioS muS hS io_read).
+Local Notation parse_write_args := (Fsm.parse_write_args D ioS muS hS mu_lock mu_unlock h_call).
+Local Notation format_read_args := (Fsm.format_read_args D ioS muS hS mu_lock mu_unlock h_call).
+Local Notation process_write_loop := (Fsm.process_write_loop D ioS muS hS mu_lock mu_unlock h_call).
+Local Notation process_run_loop := (Fsm.process_run_loop D ioS muS hS mu_lock mu_unlock h_call).
+Local Notation process_rt_loop := (Fsm.process_rt_loop D ioS muS hS mu_lock mu_unlock h_call).
+Local Notation process_io_write := (Fsm.process_io_write ioS muS hS io_write).
+Local Notation unsolicited_process_io_write := (Fsm.unsolicited_process_io_write ioS muS hS io_write).
+Local Notation unsolicited_events_service :=
+  (Fsm.unsolicited_events_service D ioS muS hS io_write mu_lock mu_unlock h_call).
+Local Notation cmd_service :=
+  (Fsm.cmd_service D ioS muS hS io_read io_write mu_lock mu_unlock h_call).
+Local Notation service_body :=
+  (Fsm.service_body D ioS muS hS io_read io_write mu_lock mu_unlock h_call).
+
+Ltac wsimpl := cbn [Fsm.st Fsm.tr Fsm.io Fsm.mu Fsm.hs Fsm.set_st Fsm.set_io Fsm.set_mu Fsm.set_hs
+                    Fsm.logw Fsm.upd_st Fsm.busy fst snd].
+
+(* event-side read/test handler requests *)
+Definition uns_req (q : hreq) : bool :=
+  match q with HRead UNSOL _ _ _ _ | HTest UNSOL _ _ _ _ => true | _ => false end.
+(* the application never answers HOLD from an event-side handler (D3: out of contract) *)
+Definition no_uns_hold : Prop :=
+  forall h q, uns_req q = true -> r_code (snd (h_call h q)) <> RC_HOLD.
+
+(* w was reached from w0 by steps that respect the state frame R and logged no write event *)
+Definition wfr (R : state -> state -> Prop) (w0 w : world) : Prop :=
+  R (st w0) (st w) /\ exists evs, tr w = evs ++ tr w0 /\ nowr evs = true.
+
+Lemma wfr_refl : forall b f w, wfr (fr b f) w w.
+Proof. intros. split; [apply fr_refl|]. exists []. split; reflexivity. Qed.
+Lemma wfr_set_st : forall R w0 w s', wfr R w0 w -> (R (st w0) (st w) -> R (st w0) s') -> wfr R w0 (set_st s' w).
+Proof. intros R w0 w s' [H1 H2] H. split; [exact (H H1)|exact H2]. Qed.
+Lemma wfr_upd_st : forall R w0 w g, wfr R w0 w -> (R (st w0) (st w) -> R (st w0) (g (st w))) ->
+  wfr R w0 (upd_st g w).
+Proof. intros R w0 w g [H1 H2] H. split; [exact (H H1)|exact H2]. Qed.
+Lemma wfr_set_io : forall R w0 w v, wfr R w0 w -> wfr R w0 (set_io v w).
+Proof. intros R w0 w v H. exact H. Qed.
+Lemma wfr_set_hs : forall R w0 w v, wfr R w0 w -> wfr R w0 (set_hs v w).
+Proof. intros R w0 w v H. exact H. Qed.
+Lemma wfr_set_mu : forall R w0 w v, wfr R w0 w -> wfr R w0 (set_mu v w).
+Proof. intros R w0 w v H. exact H. Qed.
+Lemma wfr_logw : forall R w0 w e, nowr [e] = true -> wfr R w0 w -> wfr R w0 (logw e w).
+Proof.
+  intros R w0 w e He [H1 (evs & H2 & H3)]. split; [exact H1|].
+  exists (e :: evs). split.
+  - cbn [Fsm.logw Fsm.tr]. rewrite H2. reflexivity.
+  - change (e :: evs) with ([e] ++ evs). rewrite nowr_app, He, H3. reflexivity.
+Qed.
+
+Ltac ws :=
+  repeat first
+    [ assumption
+    | apply wfr_refl
+    | apply wfr_set_io | apply wfr_set_hs | apply wfr_set_mu
+    | apply wfr_logw; [reflexivity|] ].
+Ltac wsimpl_all := cbn [Fsm.st Fsm.tr Fsm.io Fsm.mu Fsm.hs Fsm.set_st Fsm.set_io Fsm.set_mu Fsm.set_hs
+                    Fsm.logw Fsm.upd_st Fsm.busy fst snd] in *.
+
+Lemma bracket_fr : forall b f w0 w (body : world -> world * Z),
+  (forall w1, wfr (fr b f) w0 w1 -> wfr (fr b f) w0 (fst (body w1))) ->
+  wfr (fr b f) w0 w -> wfr (fr b f) w0 (fst (bracket w body)).
+Proof.
+  intros b f w0 w body Hb H. unfold Fsm.bracket.
+  destruct (d_mutex D); [|apply Hb; exact H].
+  destruct (mu_lock (mu w)) as [m1 ok]. destruct ok; cbn [negb].
+  - assert (H1 : wfr (fr b f) w0 (logw (ELock true) (set_mu m1 w))) by ws.
+    apply Hb in H1. destruct (body (logw (ELock true) (set_mu m1 w))) as [w2 r]. cbn [fst] in H1.
+    destruct (mu_unlock (mu w2)) as [m2 ok2]. destruct ok2; cbn [negb fst]; ws.
+  - cbn [fst]. ws.
+Qed.
+
+Lemma apply_icall_fr : forall b f w0 w c, wfr (fr b f) w0 w -> wfr (fr b f) w0 (apply_icall w c).
+Proof.
+  intros b f w0 w c H. unfold Fsm.apply_icall.
+  assert (G : wfr (fr b f) w0 (fst (match c with
+                 | ITrigger ci t => api_trigger w ci t
+                 | IHoldExit status => api_hold_exit w status end))).
+  { destruct c as [ci t|z]; [unfold Fsm.api_trigger | unfold Fsm.api_hold_exit];
+      apply bracket_fr; try exact H; intros w1 H1.
+    - destruct (push_unsolicited_cmd D (st w1) ci t) as [s' r] eqn:E. cbn [fst].
+      apply (f_equal fst) in E. cbn [fst] in E. subst s'.
+      apply wfr_set_st; [exact H1|]. intro. auto with fr.
+    - destruct (hold_exit (st w1) z) as [s' r] eqn:E. cbn [fst].
+      apply (f_equal fst) in E. cbn [fst] in E. subst s'.
+      apply wfr_set_st; [exact H1|]. intro. auto with fr. }
+  destruct (match c with ITrigger ci t => api_trigger w ci t | IHoldExit status => api_hold_exit w status end)
+    as [w' r]. cbn [fst] in G. ws.
+Qed.
+
+Lemma fold_icall_fr : forall b f w0 l w, wfr (fr b f) w0 w -> wfr (fr b f) w0 (fold_left apply_icall l w).
+Proof.
+  intros b f w0 l. induction l as [|c l IH]; intros w H; cbn [fold_left]; [exact H|].
+  apply IH. apply apply_icall_fr. exact H.
+Qed.
+
+Lemma call_h_fr : forall b f w0 w q, wfr (fr b f) w0 w -> wfr (fr b f) w0 (fst (call_h w q)).
+Proof.
+  intros b f w0 w q H. unfold Fsm.call_h. destruct (h_call (hs w) q) as [hs' r]. cbv zeta. cbn [fst].
+  apply fold_icall_fr. apply wfr_upd_st; [ws|]. intro H1. wsimpl. auto with fr.
+Qed.
+
+Lemma call_h_snd : forall w q, snd (call_h w q) = snd (h_call (hs w) q).
+Proof. intros. unfold Fsm.call_h. destruct (h_call (hs w) q). reflexivity. Qed.
+
+(* ---- the state functions that talk to the environment ---- *)
+Ltac brk_in t :=
+  match t with
+  | context [match ?x with _ => _ end] => first [ brk_in x | destruct x eqn:? ]
+  end.
+Ltac wcall :=
+  match goal with
+  | |- wfr ?R ?w0 (fst ?t) =>
+    match t with
+    | context [call_h ?w ?q] =>
+      let H := fresh "Hc" in
+      assert (H : wfr R w0 (fst (call_h w q))) by (apply call_h_fr; ws);
+      let E := fresh "Ec" in
+      destruct (call_h w q) eqn:E; cbn [fst] in H
+    end
+  end.
+Ltac wmatch :=
+  match goal with
+  | |- wfr _ _ (fst (Fsm.busy _ _ _ _)) => unfold Fsm.busy; cbn [fst]
+  | |- wfr _ _ (fst (_, _)) => cbn [fst]
+  | |- wfr _ _ (fst ?t) => brk_in t
+  | |- wfr _ _ ?t => brk_in t
+  end.
+Ltac wstate := first [ apply wfr_upd_st | apply wfr_set_st ]; [ ws | intro; wsimpl_all; try solve [fr_solve] ].
+Ltac wgo := repeat (cbv beta iota zeta; first [ wcall | wmatch | progress ws | wstate ]).
+
+Lemma read_cmd_char_fr : forall b w0 w, wfr (fr b ATCMD) w0 w -> wfr (fr b ATCMD) w0 (fst (read_cmd_char w)).
+Proof. intros b w0 w H. unfold Fsm.read_cmd_char. wgo. Qed.
+
+Lemma reading_fr : forall b w0 w body,
+  (forall ch s, fr b ATCMD (st w0) s -> fr b ATCMD (st w0) (body ch s)) ->
+  wfr (fr b ATCMD) w0 w -> wfr (fr b ATCMD) w0 (fst (reading w body)).
+Proof.
+  intros b w0 w body Hb H. unfold Fsm.reading.
+  pose proof (read_cmd_char_fr b w0 w H) as R.
+  destruct (read_cmd_char w) as [w1 got]. cbn [fst] in R.
+  destruct (negb got); cbn [fst]; [exact R|]. unfold Fsm.busy. cbn [fst].
+  apply wfr_upd_st; [exact R|]. intro H1. apply Hb. exact H1.
+Qed.
+
+Lemma parse_write_args_fr : forall b w0 w, wfr (fr b ATCMD) w0 w -> wfr (fr b ATCMD) w0 (fst (parse_write_args w)).
+Proof. intros b w0 w H. unfold Fsm.parse_write_args. wgo. Qed.
+
+Lemma format_read_args_fr : forall b f w0 w, wfr (fr b f) w0 w -> wfr (fr b f) w0 (fst (format_read_args f w)).
+Proof. intros b f w0 w H. unfold Fsm.format_read_args. wgo. Qed.
+
+Lemma process_write_loop_fr : forall b w0 w, wfr (fr b ATCMD) w0 w -> wfr (fr b ATCMD) w0 (fst (process_write_loop w)).
+Proof. intros b w0 w H. unfold Fsm.process_write_loop. wgo. Qed.
+
+Lemma process_run_loop_fr : forall b w0 w, wfr (fr b ATCMD) w0 w -> wfr (fr b ATCMD) w0 (fst (process_run_loop w)).
+Proof. intros b w0 w H. unfold Fsm.process_run_loop. wgo. Qed.
+
+Section Strict.
+Variable b : bool.
+Hypothesis Hnh : b = true -> no_uns_hold.
+
+Lemma process_rt_loop_fr : forall rd f w0 w,
+  wfr (fr b f) w0 w -> wfr (fr b f) w0 (fst (process_rt_loop rd f w)).
+Proof.
+  intros rd f w0 w H. unfold Fsm.process_rt_loop. cbv zeta.
+  destruct (g_cmd f (st w)) as [ci|]; [|wgo].
+  match goal with |- context [call_h w ?q0] => set (q := q0) end.
+  assert (Hc : wfr (fr b f) w0 (fst (call_h w q))) by (apply call_h_fr; exact H).
+  destruct (call_h w q) as [w1 r] eqn:Ec. cbn [fst] in Hc.
+  assert (HH : (r_code r =? RC_HOLD)%Z = true -> f = UNSOL -> b = false).
+  { intros E Hf. destruct b; [|reflexivity]. exfalso.
+    apply (Hnh eq_refl (hs w) q).
+    - subst f. unfold q. destruct rd; reflexivity.
+    - rewrite <- call_h_snd, Ec. cbn [snd]. apply Z.eqb_eq. exact E. }
+  unfold Fsm.busy. cbn [fst]. apply wfr_upd_st; [exact Hc|]. intro H1. cbv beta zeta.
+  destruct (r_code r =? RC_HOLD)%Z eqn:EH.
+  - specialize (HH eq_refl). fr_solve.
+  - clear HH. fr_solve.
+Qed.
+
+Lemma unsolicited_process_io_write_wait_k : forall s, k (unsolicited_process_io_write_wait s) = k s.
+Proof. intros s. unfold unsolicited_process_io_write_wait. destruct (negb _); reflexivity. Qed.
+
+(* the event machine outside its two flush states *)
+Lemma uns_service_fr : forall w, u_state (u (st w)) <> US_FLUSH -> u_state (u (st w)) <> US_FLUSH_WAIT ->
+  wfr (fr b UNSOL) w (fst (unsolicited_events_service w)).
+Proof.
+  intros w H1 H2. unfold Fsm.unsolicited_events_service.
+  destruct (u_state (u (st w))) eqn:E; try congruence;
+    first [ apply format_read_args_fr; apply wfr_refl
+          | apply process_rt_loop_fr; apply wfr_refl
+          | wgo ].
+Qed.
+
+(* the command machine outside its two flush states *)
+Lemma cmd_service_fr : forall w, k_state (k (st w)) <> CS_FLUSH -> k_state (k (st w)) <> CS_FLUSH_WAIT ->
+  wfr (fr b ATCMD) w (fst (cmd_service w)).
+Proof.
+  intros w H1 H2. unfold Fsm.cmd_service.
+  destruct (k_state (k (st w))) eqn:E; try congruence;
+    first [ apply parse_write_args_fr; apply wfr_refl
+          | apply format_read_args_fr; apply wfr_refl
+          | apply process_write_loop_fr; apply wfr_refl
+          | apply process_run_loop_fr; apply wfr_refl
+          | apply process_rt_loop_fr; apply wfr_refl
+          | (apply reading_fr; [ intros ch s Hs; fr_solve | apply wfr_refl ])
+          | wgo ].
+Qed.
+
+End Strict.
+
+End World2.
